@@ -53,7 +53,8 @@ def case_strategy(draw, name):
   return dict(model=m, rel=rel, tseed=draw(st.integers(0, 10 ** 6)),
               tvec=[draw(st.integers(-2048, 2048)) for _ in range(d)],
               angles=[draw(st.floats(-3.1, 3.1, allow_nan=False)) for _ in range(max(1, d * (d - 1) // 2))],
-              reflect=draw(st.booleans()), j=draw(st.integers(-4, 4)), swapfrac=draw(st.floats(0.1, 1.0, allow_nan=False)))
+              reflect=draw(st.booleans()), j=draw(st.integers(-4, 4)), swapfrac=draw(st.floats(0.1, 1.0, allow_nan=False)),
+              far=draw(st.booleans()))
 
 
 def neighbour_gap(X, y):
@@ -90,8 +91,10 @@ def rotation(d, angles, reflect):
 class Indexed:
   """index-level description of the training input, so that the same tuples are formed from transformed points"""
 
-  def __init__(self, data):
+  def __init__(self, data, gaps=False):
     self.y, self.yreal, self.chunks = data.y, data.yreal, data.chunks
+    if gaps:       # chunk ids need not be contiguous: j -> 2j + 1
+      self.chunks = np.where(self.chunks >= 0, 2 * self.chunks + 1, -1)
     self.pairs_idx, self.ypairs = data.pairs_idx
     self.trip, self.quad = data.triplets_idx, data.quads_idx
 
@@ -128,7 +131,7 @@ def check_c19(case, stats):
   name, rel = m['est'], case['rel']
   data = gen.Data(m['desc'])
   X, d = data.X, data.d
-  ix = Indexed(data)
+  ix = Indexed(data, gaps=(name == 'RCA' and (rel == 'translation' or case['tseed'] % 2 == 0)))
   if name in ('LMNN', 'LFDA', 'SCML_Supervised') and neighbour_gap(X, data.y) < 1e-9:
     raise Discard('neighbour-distance tie (choice of neighbours not determined)')
   params = E.materialize(name, m['opts'], data, m['aseed'])
@@ -137,10 +140,22 @@ def check_c19(case, stats):
   Q = rs.randn(8, 2, d) * diam / 2 + X.mean(0)
   swap = perm = None
   scale = 1.0
+  far = False
   if rel == 'translation':
     t = np.array(case['tvec'], dtype=float) * gen.GRID * max(1.0, diam / 4)
+    far = bool(case.get('far')) and name in E.TUPLE_LEARNERS and \
+        not any(isinstance(v, str) and v == 'covariance' for v in m['opts'].values())
+    if far:
+      # "all translation vectors": for the tuple learners every within-tuple difference stays bitwise the same on
+      # the dyadic grid, however far the points are moved (|t| up to ~5e5 x the data diameter)
+      t = t * 2.0 ** 14
     t = np.round(t / gen.GRID) * gen.GRID
     X2, Q2 = X + t, Q + t
+    if not np.array_equal(X2 - t, X):
+      raise Discard('translation not exact in floating point')
+    if far:
+      Q = np.round(Q / gen.GRID) * gen.GRID          # query points on the grid too, so that Q + t - t == Q
+      Q2 = Q + t
     ident = float(np.linalg.norm(t)) <= diam
   elif rel == 'swap':
     ntup = len(ix.pairs_idx) if E.KIND[name] == 'pairs' else len(ix.quad)
@@ -230,13 +245,13 @@ def check_c19(case, stats):
       worst = max(worst, float(np.abs(np.asarray(ep.pair_distance(Q)) - d1).max()) / ref)
     factor = 1000 if lbfgs else 100      # L-BFGS fits: the objective-level clause above is the sharp one
     if dev > factor * worst + tight:
-      raise Violation('C19/%s/%s' % (rel, name), 'learned distances change by %g relative under %s (tolerance %g, one-ulp control %g); options %r'
+      raise Violation('C19/%s%s/%s' % (rel, '-far' if far else '', name), 'learned distances change by %g relative under %s (tolerance %g, one-ulp control %g); options %r'
                       % (dev, rel, tight, worst, m['opts']))
     cls = 'numerically-sensitive'
     stats.inconclusive['numerically-sensitive (deviation explained by <=1e-9 relative perturbations of the data)'] += 1
   M1 = e1.get_mahalanobis_matrix()
   not_prior = bool(np.abs(M1 - np.eye(d)).max() > 1e-9)
-  stats.case(case, (not ident) and not_prior and cls == 'within-tolerance', [name, 'rel:' + rel, cls,
+  stats.case(case, (not ident) and not_prior and cls == 'within-tolerance', [name, 'rel:' + rel + ('-far' if far else ''), cls,
                                                                              'bitwise' if dev == 0 else 'rounded'])
 
 
